@@ -175,14 +175,15 @@ func lawEvent(in proj.Text, bs []proj.Text) LawEvent {
 
 // ---- C15: the four diagnostic configurations of one input ----
 type DiagEvent struct {
-	K    string      `json:"k"`
-	In   proj.Text   `json:"in"`
-	Bs   []proj.Text `json:"bs"`
-	D    Res         `json:"d"`    // default
-	R    Res         `json:"r"`    // reporting
-	F    Res         `json:"f"`    // fail on validation error
-	B    Res         `json:"b"`    // both
-	EUrl []proj.Text `json:"eurl"` // errors.Url(err) of the default run, when it failed
+	K      string      `json:"k"`
+	In     proj.Text   `json:"in"`
+	Bs     []proj.Text `json:"bs"`
+	D      Res         `json:"d"`      // default
+	R      Res         `json:"r"`      // reporting
+	F      Res         `json:"f"`      // fail on validation error
+	B      Res         `json:"b"`      // both
+	EUrl   []proj.Text `json:"eurl"`   // errors.Url(err) of the default run, when it failed
+	EMsgOk bool        `json:"emsgok"` // err.Error() contains the error type's text and the url
 }
 
 var (
@@ -198,6 +199,20 @@ func diagEvent(in proj.Text, bs []proj.Text) DiagEvent {
 		e.Bs = []proj.Text{}
 	}
 	e.D = parseWith(defaultP, s, bs)
+	// the accessors of the returned error value: Url() is the input the parser was working on, Error() mentions the type
+	func() {
+		defer func() { recover() }()
+		var err error
+		if len(bs) == 0 {
+			_, err = defaultP.Parse(s)
+		} else {
+			_, err = defaultP.ParseRef(bs[0].ToGo(), s)
+		}
+		if err != nil {
+			e.EUrl = []proj.Text{proj.FromGo(werrors.Url(err))}
+			e.EMsgOk = strings.Contains(err.Error(), string(werrors.Type(err))) && strings.Contains(err.Error(), werrors.Url(err))
+		}
+	}()
 	e.R = parseWith(pReport, s, bs)
 	e.F = parseWith(pFailVE, s, bs)
 	e.B = parseWith(pBoth, s, bs)
@@ -286,7 +301,7 @@ func cmdEvents(args []string) int {
 			if ln.T == "p" && len(ln.Bs) > 0 {
 				continue
 			}
-			evs = idemEvents(ln.In, nameList)
+			evs = idemEvents(ln.In, nameList, ln.T == "u")
 		case *kind == "class" && ln.T == "cls":
 			evs = classEvents(ln.Sp, ln.Std, nameList)
 		default:
@@ -448,17 +463,19 @@ type IdemEvent struct {
 	K    string        `json:"k"`
 	Prof string        `json:"prof"`
 	In   proj.Text     `json:"in"`
-	Y    Res           `json:"y"`  // p(x)
-	Z    Res           `json:"z"`  // p(y.href)
-	YP   [][]proj.Text `json:"yp"` // the parameter list stored in y (what the serializer was given)
+	Y    Res           `json:"y"`   // p(x)
+	Z    Res           `json:"z"`   // p(y.href)
+	YP   [][]proj.Text `json:"yp"`  // the parameter list stored in y (what the serializer was given)
+	Law  bool          `json:"law"` // the fixed-point law is demanded of this (profile, input): always for option-composed profiles, for the
+	// experimental profiles only on inputs of the ordinary-web-URL grammar
 }
 
-func idemEvents(in proj.Text, profs []string) []interface{} {
+func idemEvents(in proj.Text, profs []string, grammar bool) []interface{} {
 	var out []interface{}
 	s := in.ToGo()
 	for _, pn := range profs {
 		p := parserFor(pn)
-		e := IdemEvent{K: "idem", Prof: pn, In: in, Z: Res{VE: VEList{}}, YP: [][]proj.Text{}}
+		e := IdemEvent{K: "idem", Prof: pn, In: in, Z: Res{VE: VEList{}}, YP: [][]proj.Text{}, Law: grammar || !(pn == "GoogleSafeBrowsing" || pn == "Semantic")}
 		var yu *url.Url
 		e.Y, yu = parseU(p, s, nil)
 		if !e.Y.Fail {
